@@ -23,8 +23,10 @@ import (
 	"sync/atomic"
 	"time"
 
+	"github.com/pentops/j5/gen/test/schema/v1/schema_testpb"
 	"github.com/pentops/j5/internal/codec"
 	"github.com/pentops/j5/lib/j5schema"
+	"google.golang.org/protobuf/encoding/protojson"
 	"google.golang.org/protobuf/proto"
 	"google.golang.org/protobuf/reflect/protodesc"
 	"google.golang.org/protobuf/reflect/protoreflect"
@@ -519,6 +521,129 @@ func c10Stress(raw json.RawMessage) *Out {
 			evs = append(evs, e)
 		}
 		out.Events = evs
+	}
+	return out
+}
+
+// ---------- rich stress: every kind of schema object the codec touches ----------
+
+const richProtoJSON = `{
+ "sString": "x", "oString": "o", "rString": ["a", "b"], "sFloat": 1.5, "rFloat": [1, 2.5],
+ "ts": "2024-02-29T10:11:12Z", "rTs": ["1999-12-31T23:59:59Z"], "sBool": true, "rBool": [true, false],
+ "sInt32": -5, "sUint32": 7, "sSint32": -9, "sInt64": "-9007199254740993", "sUint64": "18446744073709551615",
+ "sBar": {"barId": "b1", "barField": "f"}, "rBars": [{"barId": "b2"}, {"barId": "b3"}],
+ "enum": "ENUM_VALUE2", "rEnum": ["ENUM_VALUE1", "ENUM_VALUE2"], "sBytes": "AQID", "rBytes": ["/w=="],
+ "mapStringString": {"k1": "v1", "k2": "v2"}, "mapStringBar": {"m": {"barId": "b4"}},
+ "aOneofEnum": "ENUM_VALUE1", "exposedString": "e",
+ "wrappedOneof": {"wOneofEnum": "ENUM_VALUE2"}, "wrappedOneofs": [{"wOneofString": "s"}, {"wOneofBar": {"barId": "b5"}}],
+ "flattened": {"fieldFromFlattened": "ff"}
+}`
+
+func init() { register("c10rich", c10Rich) }
+
+// c10Rich: N goroutines encode / decode a populated test.schema.v1.FullSchema (scalars, enums by name, oneofs, maps,
+// flattened and nested messages) on one shared codec; every result must equal the sequential result. Run under -race.
+func c10Rich(raw json.RawMessage) *Out {
+	var c c10Case
+	if err := json.Unmarshal(raw, &c); err != nil {
+		return &Out{Skip: "bad case: " + err.Error()}
+	}
+	out := &Out{Nontrivial: true, Key: fmt.Sprintf("rich-%d-%v-%v-%d-%d", c.Seed, c.Warm, c.Global, c.Goroutines, c.PerG)}
+	msg := &schema_testpb.FullSchema{}
+	if err := protojson.Unmarshal([]byte(richProtoJSON), msg); err != nil {
+		return &Out{Skip: "cannot build FullSchema: " + err.Error()}
+	}
+	priv := codec.NewCodec()
+	j5doc, err := priv.ProtoToJSON(msg.ProtoReflect())
+	if err != nil {
+		return &Out{Skip: "sequential encode fails: " + err.Error()}
+	}
+	call := func(cc *codec.Codec, kind int) (res string) {
+		defer func() {
+			if r := recover(); r != nil {
+				res = fmt.Sprintf("PANIC: %v", r)
+			}
+		}()
+		switch kind % 3 {
+		case 0:
+			b, err := cc.ProtoToJSON(msg.ProtoReflect())
+			if err != nil {
+				return "enc-err: " + err.Error()
+			}
+			return "enc: " + canonJSON(b)
+		case 1:
+			m := &schema_testpb.FullSchema{}
+			if err := cc.JSONToProto(j5doc, m.ProtoReflect()); err != nil {
+				return "dec-err: " + err.Error()
+			}
+			if !proto.Equal(m, msg) {
+				return "dec: differs from the original message"
+			}
+			return "dec: equal"
+		default:
+			m := &schema_testpb.FullSchema{}
+			if err := cc.QueryToProto(url.Values{"sString": []string{"q"}, "enum": []string{"VALUE1"}, "sBar.barId": []string{"qb"}}, m.ProtoReflect()); err != nil {
+				return "query-err: " + err.Error()
+			}
+			o, _ := proto.MarshalOptions{Deterministic: true}.Marshal(m)
+			return fmt.Sprintf("query: %x", o)
+		}
+	}
+	var expect [3]string
+	for k := 0; k < 3; k++ {
+		expect[k] = call(codec.NewCodec(), k)
+	}
+	shared := codec.NewCodec()
+	if c.Global {
+		shared = codec.Global
+	}
+	if c.Warm {
+		// warm the schema cache by encoding only: decode-side lazy state stays cold
+		call(shared, 0)
+	}
+	rng := rand.New(rand.NewSource(c.Seed))
+	plan := make([][]int, c.Goroutines)
+	for g := range plan {
+		for i := 0; i < c.PerG; i++ {
+			plan[g] = append(plan[g], rng.Intn(3))
+		}
+	}
+	bad := make([]string, c.Goroutines)
+	var wg sync.WaitGroup
+	start := make(chan struct{})
+	for g := range plan {
+		g := g
+		wg.Add(1)
+		go func() {
+			defer wg.Done()
+			<-start
+			for i, k := range plan[g] {
+				if r := call(shared, k); r != expect[k%3] && bad[g] == "" {
+					bad[g] = fmt.Sprintf("goroutine %d call %d (kind %d) returned %.200q; alone it returns %.200q", g+1, i, k, r, expect[k%3])
+				}
+			}
+		}()
+	}
+	close(start)
+	fin := make(chan struct{})
+	go func() { wg.Wait(); close(fin) }()
+	select {
+	case <-fin:
+	case <-time.After(90 * time.Second):
+		out.V("C10|deadlock", "rich stress goroutines did not finish within 90s")
+		return out
+	}
+	for _, b := range bad {
+		if b != "" {
+			kind := "result"
+			if strings.Contains(b, "PANIC") {
+				kind = "panic"
+			} else if strings.Contains(b, "-err") {
+				kind = "error"
+			}
+			out.V("C10|stress|"+kind, "%s", b)
+			break
+		}
 	}
 	return out
 }
